@@ -131,25 +131,28 @@ instance : Monad PRes where
   pure := .ok
   bind := PRes.bind
 
-/-- `createNewESDTTransfer` loop -/
+/-- `createNewESDTTransfer` -/
+def parseOneTransfer (atSender : Bool) (tok a1 a2 : Bytes) : PRes ParsedTransfer :=
+  let nonce := u64 (beNat a1)
+  if nonce > 0 then
+    if !atSender then
+      match decToken a2 with
+      | none => .err .Other
+      | some t =>
+        match t.value with
+        | none => .err .NotESDTTransferInput
+        | some v => .ok { value := v, token := tok, type := 1, nonce := nonce }
+    else .ok { value := beNat a2, token := tok, type := 1, nonce := nonce }
+  else .ok { value := beNat a2, token := tok, type := 0, nonce := nonce }
+
+/-- the loop over `numOfTransfer` triples -/
 def parseMultiLoop (args : List Bytes) (atSender : Bool) : Nat → Nat → PRes (List ParsedTransfer)
   | 0, _ => .ok []
   | n + 1, idx => do
     let tok ← pArg args idx
     let a1 ← pArg args (idx + 1)
     let a2 ← pArg args (idx + 2)
-    let nonce := u64 (beNat a1)
-    let tr : ParsedTransfer ←
-      if nonce > 0 then
-        if !atSender then
-          match decToken a2 with
-          | none => PRes.err .Other
-          | some t =>
-            match t.value with
-            | none => PRes.err .NotESDTTransferInput
-            | some v => pure { value := v, token := tok, type := 1, nonce := nonce }
-        else pure { value := beNat a2, token := tok, type := 1, nonce := nonce }
-      else pure { value := beNat a2, token := tok, type := 0, nonce := nonce }
+    let tr ← parseOneTransfer atSender tok a1 a2
     let rest ← parseMultiLoop args atSender n (idx + 3)
     pure (tr :: rest)
 
